@@ -353,6 +353,9 @@ func workerMain(args []string) int {
 		}
 		if v := firstOf(res, *prop); v != nil && os.Getenv("VERIF_SURVEY") != "" {
 			agg.Other["SURVEY "+v.Signature]++
+			if os.Getenv("VERIF_SURVEY") == "2" {
+				fmt.Fprintf(os.Stderr, "SURVEY-RUN %d %s\n", i, v.Signature)
+			}
 			continue
 		}
 		if v := firstOf(res, *prop); v != nil {
@@ -674,7 +677,7 @@ func checkMain(args []string) int {
 		if ec == 1 {
 			fmt.Printf("%s\n    %s\n", rf.Signature, rf.Detail)
 			switch rf.Spec.Scenario {
-			case "S-TURN", "S-CONC", "S-CRASH-RAND", "S-CRASH-ENUM", "S-TIME":
+			case "S-TURN", "S-CONC", "S-CRASH-RAND", "S-CRASH-ENUM", "S-TIME", "S-IOERR", "S-IOERR-CONC":
 				// pass-through: the same schedule, one call at a time, on a
 				// real temporary directory (DESIGN 7.1 b)
 				rerr := exec.Command(self, "replay", "--real", path).Run()
